@@ -241,6 +241,51 @@ fn mutate_blocks(rng: &mut Rng, inner: &[u8]) -> (Vec<u8>, String) {
     (v, what.to_string())
 }
 
+/// positions of the u64 fields of a well-formed footer at the end of a plaintext stream:
+/// (position, kind) with kind in {count, namelen, noffsets, offset, size, eof}
+fn footer_fields(inner: &[u8]) -> Vec<(usize, &'static str)> {
+    let n = inner.len();
+    let mut out = vec![];
+    if n < 12 { return out; }
+    let flen = u32::from_le_bytes(inner[n - 4..].try_into().unwrap()) as usize;
+    if flen + 4 > n || flen < 8 { return out; }
+    let base = n - 4 - flen;
+    let f = &inner[base..n - 4];
+    let rd = |o: usize| -> Option<u64> { f.get(o..o.checked_add(8)?).map(|b| u64::from_le_bytes(b.try_into().unwrap())) };
+    let mut o = 0usize;
+    let cnt = match rd(o) { Some(c) => c, None => return out };
+    out.push((base + o, "count")); o += 8;
+    for _ in 0..cnt.min(64) {
+        let nl = match rd(o) { Some(x) => x as usize, None => return out };
+        out.push((base + o, "namelen")); o += 8;
+        if nl > f.len() || o + nl > f.len() { return out; }
+        o += nl;
+        let no = match rd(o) { Some(x) => x as usize, None => return out };
+        out.push((base + o, "noffsets")); o += 8;
+        for _ in 0..no.min(4096) { if rd(o).is_none() { return out; } out.push((base + o, "offset")); o += 8; }
+        if rd(o).is_none() { return out; } out.push((base + o, "size")); o += 8;
+        if rd(o).is_none() { return out; } out.push((base + o, "eof")); o += 8;
+    }
+    out
+}
+
+/// set one field of the footer to a boundary value (the footer stays well-formed bincode unless a
+/// count or length field is hit): offsets past the end, near 2^64, near chunk arithmetic limits
+fn mutate_footer(rng: &mut Rng, inner: &[u8]) -> (Vec<u8>, String) {
+    let fields = footer_fields(inner);
+    if fields.is_empty() { return (inner.to_vec(), "footer:none".into()); }
+    let n = inner.len() as u64;
+    let chunk = CONSTS.chunk as u64;
+    let (pos, kind) = *rng.pick(&fields);
+    let small = rng.below(40);
+    let vals: [u64; 22] = [0, 1, n - 1, n, n + 1, n + small, n + chunk - 1, n + chunk, n + chunk + small, (n / chunk + 1) * chunk, (n / chunk + 3) * chunk + small,
+        u32::MAX as u64, 1 << 32, (1 << 49) - 1 - small, 1 << 49, (1u64 << 32) * chunk + small, (1 << 63) - 1, 1 << 63, u64::MAX - small, u64::MAX - 9, u64::MAX - chunk, u64::MAX];
+    let x = *rng.pick(&vals);
+    let mut v = inner.to_vec();
+    v[pos..pos + 8].copy_from_slice(&x.to_le_bytes());
+    (v, format!("footer:{kind}"))
+}
+
 /// D10-style: footer with many offsets pointing at a foreign block
 fn many_offsets_case() -> Vec<u8> {
     let mut b = b"MLA\x01\x00\x00\x00\x00\x00".to_vec();
@@ -363,7 +408,7 @@ pub fn run(ctx: &Ctx) -> Report {
                     let mut v = inner.to_vec();
                     let mut what = vec![];
                     for _ in 0..k {
-                        let (nv, w) = if rng.chance(1, 2) { mutate_blocks(&mut rng, &v) } else { mutate(&mut rng, &v, &other) };
+                        let (nv, w) = match rng.below(4) { 0 | 1 => mutate_blocks(&mut rng, &v), 2 => mutate_footer(&mut rng, &v), _ => mutate(&mut rng, &v, &other) };
                         v = nv; what.push(w);
                     }
                     let layers = (rng.below(4)) as u8;
